@@ -22,6 +22,9 @@ def make_motor(c):
     if c['i0'] is not None:
         own['i0'], own['imax'] = U.Current(*c['i0']), U.Current(*c['imax'])
         kw = dict(no_load_electric_current=own['i0'], maximum_electric_current=own['imax'])
+    elif c.get('lone') is not None:
+        # only one of the two optional currents is given: the motor has no current data
+        kw = {c['lone'][0]: U.Current(*c['lone'][1])}
     m = DCMotor(name='m', inertia_moment=U.InertiaMoment(1, 'kgm^2'), no_load_speed=own['w0'],
                 maximum_torque=own['tmax'], **kw)
     if c.get('warm'):
@@ -205,6 +208,14 @@ def run_C08(ctx):
             c['D'] = z
             c['stream'] = 'duty cycle exactly zero'
             cases.append(c)
+    # only one of the two optional currents given: the characteristic is the plain T_max(1 - w/w0)
+    for _ in range(ctx.budget(8, 80)):
+        c, w0 = gen_motor(rng, with_cur=False)
+        c['w'] = gen.in_unit(rng, 'AngularSpeed', rng.uniform(-2, 2) * w0, True)
+        c['D'] = rng.choice([1, -1, 0.5, rng.uniform(-1, 1)])
+        c['lone'] = [rng.choice(['no_load_electric_current', 'maximum_electric_current']), gen.in_unit(rng, 'Current', rng.uniform(0.1, 5), True)]
+        c['stream'] = 'only one of the two currents given'
+        cases.append(c)
     # standstill / no-load at full duty
     for _ in range(ctx.budget(20, 300)):
         c, w0 = gen_motor(rng, with_cur=True)
